@@ -2338,10 +2338,63 @@ def enumtables_family(tier, seed):
             emit({**base, "provider": "flag_exact", "cfg": "-", "loader": attempt(lambda: prov._make_loader(cls))})
 
 
+def outonly_family(tier, seed):
+    """models whose input and output shapes differ (a dataclass field with init=False is dumped but not loaded): the loader and
+    the dumper of one retort must still agree on the place of every field both of them handle (C01).  Nothing is called."""
+    import dataclasses
+
+    from adaptix import DebugTrail, Retort, name_mapping
+    from adaptix._internal.morphing.model.basic_gen import CodeGenAccumulator
+
+    def models():
+        @dataclasses.dataclass
+        class Mid:
+            a: int
+            b: int = dataclasses.field(init=False, default=0)
+            c: int = dataclasses.field(kw_only=True)
+
+        @dataclasses.dataclass
+        class Tail:
+            a: int
+            c: int
+            b: int = dataclasses.field(init=False, default=0)
+
+        @dataclasses.dataclass
+        class Head:
+            b: int = dataclasses.field(init=False, default=0)
+            a: int = dataclasses.field(kw_only=True)
+            c: int = dataclasses.field(kw_only=True)
+        return {"Mid": Mid, "Tail": Tail, "Head": Head}
+
+    cfgs = [{}, {"as_list": True}, {"as_list": True, "skip": ["b"]}, {"map": {"a": "x", "c": ("n", "c")}},
+            {"map": {"a": 1, "c": 0}}]
+    idx = 0
+    for mname, M in models().items():
+        for cfg in cfgs:
+            idx += 1
+            try:
+                acc = CodeGenAccumulator()
+                retort = Retort(recipe=[name_mapping(M, **cfg), acc], debug_trail=DebugTrail.DISABLE)
+                out = {}
+                for what in ("loader", "dumper"):
+                    before = len(acc.list)
+                    try:
+                        getattr(retort, "get_" + what)(M)
+                        err = None
+                    except Exception as e:  # noqa: BLE001
+                        err = type(e).__name__
+                    out[what] = {"error": err, "sources": [d.source for r, d in acc.list[before:] if r.last_loc.type is M]}
+                emit({"kind": "layoutpipe_outonly", "idx": f"outonly:{mname}:{idx}", "cfg": {"model": mname, "nms": [repr(cfg)]},
+                      "loader": out["loader"], "dumper": out["dumper"]})
+            except Exception as e:  # noqa: BLE001
+                emit({"kind": "layoutpipe_outonly", "idx": f"outonly:{mname}:{idx}", "cfg": {"model": mname, "nms": [repr(cfg)]},
+                      "harness_error": f"{type(e).__name__}: {e}", "trace": traceback.format_exc()[-600:]})
+
+
 FAMILIES = {"soundness": soundness_family, "generics": generics_family,
             "loader": loader_family, "dumper": dumper_family, "literal": literal_family, "hostile": hostile_family,
             "broach": broach_family, "converter": converter_family, "convpipe": convpipe_family,
-            "layoutpipe": layoutpipe_family, "kinds": kinds_family, "enumtables": enumtables_family}
+            "layoutpipe": layoutpipe_family, "kinds": kinds_family, "enumtables": enumtables_family, "outonly": outonly_family}
 
 
 def main():
